@@ -158,6 +158,17 @@ CLAIMED = {
         "self loops on undirected and in/out graphs (D13).",
    technique="TLA+ abstract graph ADT + TLC trace validation (acceptance by reaching the end of each execution) of sequential and concurrent real executions",
    engine="seqreplay+ctl+free+tv", design_ref="6/C10"),
+ "C09": dict(
+   category="model_checking",
+   text="AllocAbs.tla is the map of live blocks with NonNull, LargeEnough, Aligned(g), Disjoint (against every live block of any allocator, hence "
+        "reuse only after free), FreeOfLive and Clear. The real fixed-size heaps, power-of-two block heap, variable-size bump heap (both allocate "
+        "forms), per-iteration bump+malloc heap, page pool, per-thread storage objects and large arrays are driven by sequential histories "
+        "over boundary sizes (1, 7, 8, 9, ..., page-8, page, > page, size-class edges; the first operation on a fresh or cleared heap) and by "
+        "concurrent mixes on 1-8 threads with blocks handed to other threads for freeing; canaries are re-checked; TLC replays every history "
+        "on AllocAbs (addresses split into two words).",
+   note="Trusted: TLC, the address/canary bookkeeping of harness/src/alloc.cpp. NUMA placement not observable (one node). Concurrent schedules sampled.",
+   technique="TLA+ live-interval specification + TLC trace validation of real allocation histories",
+   engine="seqreplay+free+tv", design_ref="6/C09"),
 }
 
 NOT_YET = "check not built yet in this round (specification and harness planned in DESIGN.md section 6); not claimed"
